@@ -120,7 +120,7 @@ def check_assembly(case):
 
 
 # ------------------------------------------------------------------------------------------------ bays
-def mk_bay(curved, cut_idx, stiffs, seed, only=None, forces=False, extra_cuts=True, loads='none'):
+def mk_bay(curved, cut_idx, stiffs, seed, only=None, forces=False, extra_cuts=True, loads='none', force_y=None):
     """Bay with skin cut at the given positions and stiffeners placed on the first cuts (in order)."""
     from compmech.stiffpanelbay import StiffPanelBay
     spb = StiffPanelBay()
@@ -139,14 +139,17 @@ def mk_bay(curved, cut_idx, stiffs, seed, only=None, forces=False, extra_cuts=Tr
         if only is not None and k != only:
             continue
         y = ys[1 + k]
+        # pad-up laminates that are not symmetric about their own mid-plane (they are offset from the skin mid-plane)
+        bs_u = dict(bs, bstack=[90., 0.])
+        bs_v = dict(bs, bstack=[45., 0.])
         if st == 'b1d_bf':
-            s = spb.add_bladestiff1d(ys=y, mu=1500., Fx=-50., **fl, **bs)
+            s = spb.add_bladestiff1d(ys=y, mu=1500., Fx=-50., **fl, **bs_u)
         elif st == 'b1d_f':
             s = spb.add_bladestiff1d(ys=y, mu=1500., Fx=-50., **fl)
         elif st == 'b1d_b':
             s = spb.add_bladestiff1d(ys=y, mu=1500., **bs)
         elif st == 'b2d_bf':
-            s = spb.add_bladestiff2d(ys=y, mu=1500., mf=3, nf=4, **fl, **bs)
+            s = spb.add_bladestiff2d(ys=y, mu=1500., mf=3, nf=4, **fl, **bs_v)
         elif st == 'b2d_f':
             s = spb.add_bladestiff2d(ys=y, mu=1500., mf=3, nf=3, **fl)
         elif st == 't2d':
@@ -162,6 +165,8 @@ def mk_bay(curved, cut_idx, stiffs, seed, only=None, forces=False, extra_cuts=Tr
                 s.base.add_force(0.7 * spb.a, 0.25 * s.base.b, 0., 1. + k, -2.)
     if forces:
         spb.forces_skin.append([0.37 * spb.a, 0.61 * spb.b, 1.3, -0.7, 2.9])
+    if force_y is not None:           # a skin force at a given y (used with y on a cut line)
+        spb.forces_skin.append([0.55 * spb.a, force_y, 0.4, 0.9, -1.7])
     return spb
 
 
@@ -205,6 +210,16 @@ def check_bay(case):
         if np.abs(skin_cut[nm] - skin_one[nm]).max() > 1e-11 * sc:
             fails.append(fail('splitting the uniformly laminated skin changes the global %s' % nm, sig=None, case=case,
                               rel=float(np.abs(skin_cut[nm] - skin_one[nm]).max() / sc)))
+    if cuts:
+        fa = mk_bay(curved, cuts, [], seed, forces=True, force_y=CUTS[cuts[0]] * mk_bay(curved, [], [], seed).b)
+        fb = mk_bay(curved, [], [], seed, forces=True, force_y=CUTS[cuts[0]] * mk_bay(curved, [], [], seed).b)
+        for o in (fa, fb):
+            o.calc_k0(silent=True)
+        va, vb = np.asarray(fa.calc_fext(silent=True), dtype=float), np.asarray(fb.calc_fext(silent=True), dtype=float)
+        execs += 2
+        if va.shape != vb.shape or np.abs(va - vb).max() > 1e-12 * (np.abs(vb).max() + 1e-300):
+            fails.append(fail('splitting the skin changes the force vector (one of the skin forces acts on the cut line)', sig=None, case=case,
+                              rel=float(np.abs(va - vb).max() / (np.abs(vb).max() + 1e-300)) if va.shape == vb.shape else None))
     # (2) global == skin + sum over stiffeners of (bay with only that stiffener - skin), each placed at its own range
     if stiffs:
         order = global_order(stiffs)
